@@ -161,4 +161,67 @@ theorem guards_imply_side_conditions {V : Type} (d : DagRec) (o : OpRec) (ps : P
     obtain ⟨t, _, _, hout⟩ := removed_is_triple d _ hsh triples hlen hprod p (hpre_sub p hp) hf
     exact ⟨t.2.1, hout⟩
 
+/-- **The structural rewrite never drops a requested array**: every array of `array_names` that some op of the dag
+produces is still produced by an op of the rewritten dag (`fuse_predecessors` removes only ops whose single output is not
+requested, and the fused op keeps the successor's outputs). -/
+theorem fusePreds_keeps_requested (d d' : DagRec) (name : String) (ps : Params) (a : String)
+    (hnames : ∀ r₁ ∈ d.ops, ∀ r₂ ∈ d.ops, r₁.name = r₂.name → r₁ = r₂)
+    (ha : ps.arrayNames.contains a = true)
+    (h : fusePreds d name ps = some d')
+    (hp : ∃ q ∈ d.ops, q.outputs.contains a = true) :
+    ∃ q' ∈ d'.ops, q'.outputs.contains a = true := by
+  unfold fusePreds at h
+  cases hf : findOp d name with
+  | none => simp only [hf] at h; cases h; exact hp
+  | some o =>
+    simp only [hf] at h
+    cases hc : canFuse d o ps with
+    | none => simp only [hc] at h; cases h
+    | some b =>
+      cases b with
+      | false => simp only [hc] at h; cases h; exact hp
+      | true =>
+        simp only [hc] at h
+        cases hpo : poa d o with
+        | none => simp only [hpo] at h; cases h
+        | some triples =>
+          simp only [hpo] at h
+          cases h
+          obtain ⟨triples', hpoa', hreq, hlen, hfus⟩ := canFuse_guards d o ps hc
+          rw [hpo] at hpoa'
+          cases hpoa'
+          obtain ⟨q, hq, hqa⟩ := hp
+          have ho : o ∈ d.ops ∧ (o.name == name) = true := by
+            unfold findOp at hf
+            exact ⟨List.mem_of_find?_eq_some hf, by simpa using List.find?_some hf⟩
+          -- q is not among the removed ops
+          have hkeep : ((triples.filter (·.2.2)).map (·.1.name)).contains q.name = false := by
+            cases hcon : ((triples.filter (·.2.2)).map (·.1.name)).contains q.name with
+            | false => rfl
+            | true =>
+              exfalso
+              have hmem : q.name ∈ (triples.filter (·.2.2)).map (·.1.name) := by simpa using hcon
+              obtain ⟨t, ht, hname⟩ := List.mem_map.mp hmem
+              obtain ⟨htm, ht2⟩ := List.mem_filter.mp ht
+              obtain ⟨htd, htc⟩ := producer_mem d t.2.1 t.1 ((hfus t htm ht2).1)
+              have hqt : q = t.1 := hnames q hq t.1 htd hname.symm
+              have hout := outputs_singleton t.1 t.2.1 htc (hlen t htm)
+              rw [hqt, hout] at hqa
+              have hat : a = t.2.1 := by simpa using hqa
+              have := hreq t htm
+              rw [← hat, ha] at this
+              cases this
+          by_cases hqn : (q.name == name) = true
+          · -- q is the fusing op itself: replaced by the fused record, which keeps its outputs
+            have hqo : q = o := hnames q hq o ho.1 (by
+              have h1 : q.name = name := by simpa using hqn
+              have h2 : o.name = name := by simpa using ho.2
+              rw [h1, h2])
+            refine ⟨_, List.mem_map.mpr ⟨q, List.mem_filter.mpr ⟨hq, by simp only [hkeep, Bool.not_false]⟩, rfl⟩, ?_⟩
+            simp only [hqn, if_true]
+            simp only [fuseRec]
+            rw [← hqo]; exact hqa
+          · refine ⟨q, List.mem_map.mpr ⟨q, List.mem_filter.mpr ⟨hq, by simp only [hkeep, Bool.not_false]⟩, ?_⟩, hqa⟩
+            simp [hqn]
+
 end Cubed.Opt
